@@ -22,6 +22,11 @@ def _front(v, prop, need_driver, need_harness, need_cli, profiles, need_shim):
     if not ok:
         st["broken"].append("constants translator: " + msg)
         log("gen_constants failed: " + msg)
+    else:
+        # a part of the source that could not be translated concerns only the properties whose models use it
+        for pb in vlib.translator_problems(prop):
+            st["broken"].append(pb)
+            log("translator: " + pb)
     problems = vlib.lint_coq()
     if problems:
         st["broken"].append("lint: " + "; ".join(problems[:5]))
